@@ -89,6 +89,13 @@ def punct_table(F):
                             continue
                         gt = b.term(gb)
                         if gt["k"] == "switch":
+                            # `match token { Token::LessThan => .., Token::GreaterThan => .., _ => {} }`
+                            ginfo = b.switch_info(gb)
+                            if ginfo and ginfo[3]:
+                                for v_, n_ in ginfo[3].items():
+                                    tg_ = ginfo[1].get(v_)
+                                    if tg_ is not None and tg_ != ginfo[2] and b.dominates(tg_, bb) and n_ in out.values():
+                                        firsttok = n_
                             ge = strip_expr(b.expr(gt["discr"]))
                             if ge[0] == "call" and ge[1].endswith("PartialEq>::eq"):
                                 txt = " ".join(show(a) for a in ge[2])
